@@ -208,6 +208,11 @@ func generateGrid(family string, n int, r *rng, p func(string, ...any)) bool {
 			for _, k := range []string{"ed31", "ed33", "ed0"} {
 				p("new verifier %d %s", a, k)
 			}
+			// private keys of the Go type ed25519.PrivateKey but of another length than 64 octets
+			// (32: the seed mistaken for the key), and opaque keys reporting a malformed public half
+			for _, k := range []string{"edp32", "edp48", "edp63", "edp65", "edp96", "edw31", "edw33"} {
+				p("new signer %d %s", a, k)
+			}
 		}
 		return true
 	case "keygrid":
@@ -787,6 +792,32 @@ func tagW(tag uint64, hw int, x *W) *W {
 
 func genTaggedLabelGrid(p func(string, ...any)) {
 	payload := []byte{0x50}
+	// VALUES wrapped in the self-described tag: the library would read alg / crit / kid / … through it
+	{
+		t := func(x *W) *W { return wTag(55799, x) }
+		prots := []*W{
+			wMap(wInt(1), t(wInt(-7))), wMap(wInt(1), wInt(-7), wInt(4), t(wBstr([]byte{0x31}))),
+			wMap(wInt(1), wInt(-7), wInt(2), t(wArr(wInt(4))), wInt(4), wBstr([]byte{1})),
+			wMap(wInt(1), wInt(-7), wInt(2), wArr(t(wInt(4))), wInt(4), wBstr([]byte{1})),
+			wMap(wInt(1), wInt(-7), wInt(3), t(wInt(42))), wMap(wInt(1), wInt(-7), wInt(16), t(wTstr("a/b"))),
+			wMap(wInt(1), wInt(-7), wInt(5), t(wBstr([]byte{1}))), wMap(wInt(1), wInt(-7), wInt(258), t(wInt(-16))),
+			wMap(wInt(1), wInt(-7), wInt(99), wArr(wInt(1), t(wInt(2)))), wMap(wInt(1), wInt(-7), wInt(99), wMap(wInt(1), t(wTstr("x")))),
+			wMap(wInt(1), t(t(wInt(-7)))),
+		}
+		for _, pm := range prots {
+			sigB := wBstr([]byte{1})
+			pb := wBstr(pm.enc())
+			p("dec ph %s", hexs(pb.enc()))
+			p("dec s1 %s", hexs(wTag(18, wArr(pb.clone(), wMap(), wBstr(payload), sigB)).enc()))
+			p("dec sig %s", hexs(wArr(pb.clone(), wMap(), sigB.clone()).enc()))
+			p("dec sm %s", hexs(wTag(98, wArr(wBstr([]byte{}), wMap(), wBstr(payload), wArr(wArr(pb.clone(), wMap(), sigB.clone())))).enc()))
+			p("dec s1 %s", hexs(wTag(18, wArr(wBstr(wMap(wInt(1), wInt(-7)).enc()), wMap(wInt(11), wArr(pb.clone(), wMap(), sigB.clone())), wBstr(payload), sigB.clone())).enc()))
+			p("hev %s T:-7:1", hexs(wTag(18, wArr(pb.clone(), wMap(), wBstr(make([]byte, 32)), sigB.clone())).enc()))
+		}
+		p("dec uh %s", hexs(wMap(wInt(4), t(wBstr([]byte{1}))).enc()))
+		p("dec key %s", hexs(wMap(wInt(1), t(wInt(4)), wInt(-1), wBstr([]byte{0xaa})).enc()))
+		p("keyuse %s", hexs(wMap(wInt(1), wInt(1), wInt(-1), t(wInt(6)), wInt(-2), wBstr(make([]byte, 32))).enc()))
+	}
 	for ti, tag := range []uint64{55799, 55799, 55799, 1, 2, 100} {
 		for _, lbl := range []*W{wInt(1), wInt(4), wInt(99), wInt(-1), wTstr("a")} {
 			tagHW := []int{-1, 4, 8, -1, -1, -1}[ti] // tag 55799 also under a 4- and an 8-byte head
@@ -1031,6 +1062,16 @@ func genEncGrid(p func(string, ...any)) {
 		p("enc key K(1;01;-8;[2];02;{i64:-1=c:6,i64:-2=b:%s,s:73657269616c=%s}) !rt", strings.Repeat("33", 32), v)
 		p("enc key K(2;-;0;-;-;{i64:-1=c:1,i64:-2=b:%s,i64:-3=b:%s,i64:-70001=%s}) !rt", strings.Repeat("5a", 32), strings.Repeat("a5", 32), v)
 		p("enc ph {i64:1=a:-7,i64:99=%s} !rt", v)
+	}
+	// values that need a tag on the wire, placed in the UNPROTECTED bucket (where the decoder forbids
+	// tags): the encoder either refuses them or emits bytes the decoder accepts
+	for _, v := range []string{"tg:1:i64:1700000000", "tg:37:b:00112233445566778899aabbccddeeff", "bg:10000000000000000", "bg:-10000000000000001", "[i64:1,tg:100:i64:2]", "{i64:1=tg:32:s:75726e3a78}"} {
+		p("enc s1 S1(H(-;{i64:1=a:-7};-;{i64:99=%s});00;01) !rt", v)
+		p("enc s1u S1(H(-;{i64:1=a:-7};-;{s:78=%s});00;01) !rt", v)
+		p("enc sm SM(H(-;{};-;{i64:99=%s});00;[cs(H(-;{i64:1=a:-7};-;{});01)]) !rt", v)
+		p("enc sm SM(H(-;{};-;{});00;[cs(H(-;{i64:1=a:-7};-;{i64:99=%s});01)]) !rt", v)
+		p("enc sig cs(H(-;{i64:1=a:-7};-;{i64:99=%s});01) !rt", v)
+		p("enc uh {i64:11=cs(H(-;{i64:1=a:-7};-;{i64:99=%s});01)} !rt", v)
 	}
 	// Go time.Time values (the encoder writes them as untagged epoch integers) and arrays longer
 	// than any small limit, in either bucket and inside a signer slot: always decodable
